@@ -5,7 +5,6 @@
 EXTENDS DMHL, Chunk, TraceLib
 VARIABLES l, bad, cache
 vars == <<l, bad, cache>>
-B(x) == IF x THEN 1 ELSE 0
 CacheFor(i) == IF cache.i = i THEN cache ELSE [i |-> i, map |-> Place(MapRows(T7[i]), MapCols(T7[i]))]
 
 \* ---- C08: whole symbol written by DataMatrixWriter at size 0x0 for the data codewords EncodeHighLevel returned
